@@ -38,6 +38,7 @@ class Hist05:
         self.clock = 1700000000 * 10**9 + self.rng.randrange(10**9)
         self.stats = {'cmds': 0, 'model': 0, 'files_judged': 0, 'known': 0, 'reported_unrecoverable': 0, 'recovered': 0}
         self.mb = None
+        self.ever_used, self.dropped = set(), set()
         self.cand = {}      # (disk, position) -> padded blocks ever recorded there (candidates for what the parity encodes)
 
     # ------------------------------------------------------------------------------------------- operations
@@ -65,6 +66,10 @@ class Hist05:
                 a.note_version(d2, n)
                 if k == 'move':
                     os.unlink(p)
+        elif k == 'utime':
+            p = a.path(op[1], op[2])
+            if os.path.isfile(p):
+                os.utime(p, ns=(op[3], op[3]))
         elif k == 'sync':
             r = a.run('sync', *(SYNC_OPTS + list(op[1:])))
             self.after_sync(r)
@@ -110,6 +115,15 @@ class Hist05:
         except Exception:
             return None
         bs = a.bs
+        # positions that a saved content file no longer mentions on any disk (neither as file block nor as DELETED block) after
+        # an earlier one did: the stripes dropped without a parity update, the mechanism of F-C05c
+        used = set()
+        for d, dd in st['disks'].items():
+            for f in dd['files']:
+                used.update(pos for (_s, pos, _h) in f['blocks'])
+            used.update(dd.get('deleted', {}).keys())
+        self.dropped |= (self.ever_used - used)
+        self.ever_used |= used
         for d, dd in st['disks'].items():
             for f in dd['files']:
                 v = a.find_version(d, f)
@@ -326,6 +340,30 @@ class Hist05:
         self.do(('damage', 'rm', 'd2', 'F'))
         self.do(rng.choice([('fix',), ('fix', '-m')]))
 
+    def run_kill_rewrite(self):
+        """a new file goes into positions unused on its disk (past hash ZERO) under a longer synced file of another disk, the
+        sync dies after the parity update, the new file is rewritten, the next sync skips its stripes (the synced peer changes
+        its time-stamp during the sync; afterwards the time-stamp is put back) but saves the content, the file is lost: the
+        parity holds the FIRST version, the content records the second"""
+        rng, a = self.rng, self.arr
+        nb = rng.randint(1, 3)
+        k0 = rng.randint(0, 2)
+        if k0:
+            self.do(('write', 'd1', 'keep', k0 * a.bs - rng.choice([0, 0, 5]), rng.getrandbits(32)))
+        self.do(('write', 'd2', 'peer', (k0 + nb + rng.randint(0, 1)) * a.bs, rng.getrandbits(32)))
+        if self.do(('sync',)).rc != 0:
+            return
+        size = nb * a.bs - rng.choice([0, 0, 1, 300])
+        self.do(('write', 'd1', 'new', size, rng.getrandbits(32)))
+        self.do(rng.choice([('sync', '--test-kill-after-sync'), ('sync', '--test-kill-after-sync'),
+                            ('sync', '--test-force-autosave-at', str(rng.randint(0, 3)), '--test-kill-after-sync')]))
+        self.do(('write', 'd1', 'new', size, rng.getrandbits(32)))
+        stamp = os.stat(a.path('d2', 'peer')).st_mtime_ns
+        self.do(('sync_run', 'touch', 'd2', 'peer'))
+        self.do(('utime', 'd2', 'peer', stamp))
+        self.do(('damage', 'rm', 'd1', 'new'))
+        self.do(rng.choice([('fix',), ('fix', '-m'), ('fix', '-d', 'd1')]))
+
     def replay(self, ops):
         for op in ops:
             op = [x for x in op if not (isinstance(x, str) and x.startswith('rc='))]
@@ -388,8 +426,10 @@ class Hist05:
                 why.append('block %d: CHG with INVALID past hash written as good' % i); keys.add(None)
                 continue
             if h == b'\xff' * hs:
-                if any(wpad):
-                    why.append('block %d: CHG with ZERO past hash, parity encoded non-zero data (rebuilt, "not zero hence new")' % i); keys.add(KEY_C)
+                if any(wpad) and pos in self.dropped:
+                    why.append('block %d: CHG with ZERO past hash at a position dropped from an earlier content file without a parity update; parity encoded non-zero data (rebuilt, "not zero hence new")' % i); keys.add(KEY_C)
+                elif any(wpad):
+                    why.append('block %d: CHG with ZERO past hash although the position was never dropped from the content: parity encoded non-zero data (rebuilt, "not zero hence new")' % i); keys.add(None)
                 else:
                     why.append('block %d: CHG with ZERO past hash rebuilt as zeros and accepted' % i); keys.add(None)
                 continue
@@ -576,6 +616,7 @@ def main(tier, replay=None):
     for i in range(nt):
         jobs.append(((2, rng.choice([2, 2, 3]), None), rng.getrandbits(32), 'rep_chain'))
         jobs.append(((3, rng.choice([2, 2, 3, 4]), None), rng.getrandbits(32), 'rep_blk'))
+        jobs.append(((rng.choice([2, 3]), rng.choice([2, 2, 3]), None), rng.getrandbits(32), 'kill_rewrite'))
 
     def one(job):
         H = Hist05(chk, binary, shim, model, job[0], job[1])
@@ -594,7 +635,7 @@ def main(tier, replay=None):
             if len(samples) < 4:
                 samples.append({'geom': H.geom, 'history': [o for o in H.log if o[0] not in ('write',)][:12]})
     chk.cov.update({'evaluations': tot.get('cmds', 0), 'distinct_nontrivial': nh,
-                    'rule': 'corpus/C05 (the three known findings) + %d generated histories: tree, clean sync, 1-3 rounds of (rewrites same/other size, deletes incl. whole stripes, additions; then one of: full sync, -B/-S partial sync, --test-kill-after-sync, autosave+kill, --test-run touch/rm of a file during the sync, shim pread EIO), copies and moves to other disks (copy detection), optional unsynced changes, damage (files removed / disks wiped / truncation / flips in hashed blocks / parity deleted, garbage, truncated, zeroed), optional scrub, fix with filters none/-m/-d/-f/-m -d/-e; judge = version store + before/after snapshot; plus %d + %d histories from two templates aimed at copy-detected (REP) blocks in stripes the sync did not reach; non-trivial = histories' % (nh, nt, nt),
+                    'rule': 'corpus/C05 (the three known findings) + %d generated histories: tree, clean sync, 1-3 rounds of (rewrites same/other size, deletes incl. whole stripes, additions; then one of: full sync, -B/-S partial sync, --test-kill-after-sync, autosave+kill, --test-run touch/rm of a file during the sync, shim pread EIO), copies and moves to other disks (copy detection), optional unsynced changes, damage (files removed / disks wiped / truncation / flips in hashed blocks / parity deleted, garbage, truncated, zeroed), optional scrub, fix with filters none/-m/-d/-f/-m -d/-e; judge = version store + before/after snapshot; plus %d + %d + %d histories from three templates: two aimed at copy-detected (REP) blocks in stripes the sync did not reach, one at a file rewritten between a sync killed after its parity update and a sync that skips its stripes; non-trivial = histories' % (nh, nt, nt, nt),
                     'files_judged': tot.get('files_judged', 0), 'files_reported_recovered': tot.get('recovered', 0), 'files_reported_unrecoverable': tot.get('reported_unrecoverable', 0),
                     'wrong_files_attributed_to_known_findings': tot.get('known', 0), 'fix_runs_replayed_by_model': tot.get('model', 0),
                     'traces_validated_against_impl': tot.get('model', 0), 'corpus': reproduced})
